@@ -60,6 +60,7 @@ type TypeContract struct {
 	Monitors   []*Monitor
 	Invariants []*Clause // over Self
 	Relies     []*Clause // two-state over Self, old()
+	GhostFields map[string]string // ghost field name -> type text
 	Strong     []*Clause // invariants that hold at every instant, also inside critical sections
 	OwnsChan   []string  // chan-typed fields whose channels are closed only under the type's own protocol
 	File       string
@@ -100,7 +101,7 @@ var clauseKeywords = map[string]bool{
 	"nopanic": true, "arith": true, "inv": true, "decreases": true, "assert": true, "callee": true,
 	"stable": true, "escapable": true, "thread-entry": true, "split": true, "inline": true, "pure": true,
 	"monitor": true, "invariant": true, "rely": true, "self": true, "maypanic": true, "havoc": true,
-	"assume": true, "entry-assume": true, "ownschan": true, "strong-invariant": true, "interferes": true, "ghost": true, "unroll": true, "trusted": true,
+	"assume": true, "entry-assume": true, "ownschan": true, "strong-invariant": true, "ghostfield": true, "interferes": true, "ghost": true, "unroll": true, "trusted": true,
 }
 var blockKeywords = map[string]bool{"type": true, "func": true, "spec": true, "lemma": true, "assume-contract": true, "global": true, "chan": true}
 
@@ -275,6 +276,15 @@ func (cs *Contracts) parseFile(path string) error {
 						curT.OwnsChan = append(curT.OwnsChan, strings.TrimSpace(f))
 					}
 					cs.AssumeLines = append(cs.AssumeLines, fmt.Sprintf("%s:%d: type %s ownschan %s (ASSUMED: code outside watermill never closes these channels; the module's own close sites are listed by the frame sweep)", filepath.Base(filepath.Dir(path)), l.line, curT.Name, l.rest))
+				case "ghostfield":
+					fs := strings.Fields(l.rest)
+					if len(fs) != 2 {
+						return fmt.Errorf("%s:%d: ghostfield NAME TYPE", path, l.line)
+					}
+					if curT.GhostFields == nil {
+						curT.GhostFields = map[string]string{}
+					}
+					curT.GhostFields[fs[0]] = fs[1]
 				case "strong-invariant":
 					c, err := mkClause("invariant", l.rest, path, l.line)
 					if err != nil {
